@@ -85,7 +85,8 @@ func swarmGen(r *rand.Rand, initial int64) GenCfg {
 // varyProfile switches off a random subset of kinds and scales fault rates (swarm testing).
 func varyProfile(r *rand.Rand, p Profile) Profile {
 	w := map[string]int{}
-	for k, v := range p.W {
+	for _, k := range allKinds { // fixed order: the PRNG is consumed inside the loop
+		v := p.W[k]
 		w[k] = v
 		if r.Intn(5) == 0 {
 			w[k] = 0
